@@ -654,3 +654,61 @@ pub fn c11(case: &Case, out: &Outcome) -> Verdict {
     }
     Verdict::Pass { nontrivial: interesting && *q != case.source }
 }
+
+// ------------------------------------------------------------------------------------------
+// C04: literal values
+
+/// values of all literal tokens (strings and numbers) in order
+pub fn literal_values(src: &str, syn: Syntax) -> Result<Vec<(String, String)>, String> {
+    let toks = lex_ok(src, syn)?;
+    let mut out = Vec::new();
+    for t in &toks {
+        match t.kind {
+            Kind::Quoted(_) | Kind::LongStr(_) => {
+                let v = lex::string_value(t, src);
+                let mut s = String::from("s:");
+                for b in v {
+                    s.push_str(&format!("{b:02x}"));
+                }
+                out.push((s, t.text(src).to_string()));
+            }
+            Kind::Number => out.push((format!("n:{}", lex::number_value(t.text(src), syn)), t.text(src).to_string())),
+            _ => {}
+        }
+    }
+    Ok(out)
+}
+
+pub fn c04(case: &Case, out: &Outcome) -> Verdict {
+    let syn = case.cfg.syntax;
+    if case.cfg.sort_requires {
+        return Verdict::Skip("sort_requires on");
+    }
+    match out {
+        Outcome::ParseError(_) => Verdict::Skip("input does not parse"),
+        Outcome::Ok(q) => {
+            let a = match literal_values(&case.source, syn) {
+                Ok(a) => a,
+                Err(_) => return Verdict::Skip("checker lexer rejects input"),
+            };
+            let b = match literal_values(q, syn) {
+                Ok(b) => b,
+                Err(e) => return Verdict::Fail(format!("output does not lex: {e}")),
+            };
+            if a.len() != b.len() {
+                return Verdict::Fail(format!("{} literals in the input, {} in the output", a.len(), b.len()));
+            }
+            let mut respelled = false;
+            for (i, (x, y)) in a.iter().zip(b.iter()).enumerate() {
+                if x.0 != y.0 {
+                    return Verdict::Fail(format!("literal {i}: `{}` became `{}` (value {} -> {})", short(&x.1, 60), short(&y.1, 60), short(&x.0, 60), short(&y.0, 60)));
+                }
+                if x.1 != y.1 {
+                    respelled = true;
+                }
+            }
+            Verdict::Pass { nontrivial: respelled }
+        }
+        _ => Verdict::Skip("no output"),
+    }
+}
